@@ -126,6 +126,35 @@ def chain(count=3, pd=(4,), cap=2, iat=4, blocking=True, sblocking=True, wc=1, b
                                       "sblocking": sblocking, "wc": wc, "bdelay": bdelay}}
 
 
+def mesh(rows=2, cols=2, pd=((2, 3), (4, 1)), cap=2, iat=2, pin="FIRST_AVAILABLE", pout="ROUND_ROBIN", spout="ROUND_ROBIN",
+         blocking=True, wc=1, bdelay=0, T=200):
+    """source -> first row, every machine -> right and down neighbour, last row -> sink, built by constructs/mesh.py
+    (edge numbering = the order in which the construct connects them, so every node sees its edges in ascending order)"""
+    nodes = [_n("source", blocking=True, iat={"const": iat}, policy_out=spout)]
+    idx = {}
+    for r in range(rows):
+        for c in range(cols):
+            idx[(r, c)] = len(nodes)
+            nodes.append(_n("machine", wc=wc, pd={"const": pd[r % len(pd)][c % len(pd[r % len(pd)])]}, blocking=blocking,
+                            policy_in=pin, policy_out=pout))
+    snk = len(nodes)
+    nodes.append(_n("sink"))
+    edges = []
+    for r in range(rows):
+        for c in range(cols):
+            if c + 1 < cols:
+                edges.append(_e("buffer", idx[(r, c)], idx[(r, c + 1)], cap=cap, delay=bdelay))
+            if r + 1 < rows:
+                edges.append(_e("buffer", idx[(r, c)], idx[(r + 1, c)], cap=cap, delay=bdelay))
+    for c in range(cols):
+        edges.append(_e("buffer", 0, idx[(0, c)], cap=cap, delay=bdelay))
+    for c in range(cols):
+        edges.append(_e("buffer", idx[(rows - 1, c)], snk, cap=cap, delay=bdelay))
+    return {"Q": Q, "T": T, "family": "constructs/mesh", "expect": "valid", "drains": False, "nodes": nodes, "edges": edges,
+            "via": "mesh", "mesh": {"rows": rows, "cols": cols, "pd": [list(x) for x in pd], "cap": cap, "iat": iat, "pin": pin,
+                                    "pout": pout, "spout": spout, "blocking": blocking, "wc": wc, "bdelay": bdelay}}
+
+
 def conveyor_line(etype="conveyor", acc=1, cap=3, slot=4, iat=(6, 6, 6), pd=(4,), T=160, sink_direct=False, sb=True):
     if sink_direct:
         return {"Q": Q, "T": T, "family": "S-conv-K", "expect": "valid", "drains": True,
@@ -257,6 +286,13 @@ def families(tier):
                                                                  (3, (5,), 1, 1, False, False, 2, 2), (2, (0,), 1, 1, True, False, 1, 4),
                                                                  (5, (3, 1), 2, 2, True, True, 2, 1)]:
         C.append(chain(count, pd, cap, iat, blocking, sblocking, wc, bdelay))
+    for rows, cols, pd, cap, iat, pin, pout, spout, blocking, wc, bdelay in [
+            (2, 2, ((2, 3), (4, 1)), 2, 2, "FIRST_AVAILABLE", "ROUND_ROBIN", "ROUND_ROBIN", True, 1, 0),
+            (2, 2, ((3, 3), (5, 2)), 1, 1, "ROUND_ROBIN", "FIRST_AVAILABLE", "FIRST_AVAILABLE", True, 1, 0),
+            (1, 3, ((2, 5, 3),), 2, 2, "FIRST_AVAILABLE", "FIRST_AVAILABLE", "ROUND_ROBIN", True, 2, 1),
+            (3, 1, ((2,), (6,), (1,)), 1, 3, "ROUND_ROBIN", "ROUND_ROBIN", "FIRST_AVAILABLE", False, 1, 0),
+            (2, 3, ((4, 2, 3), (1, 5, 2)), 2, 1, "ROUND_ROBIN", "ROUND_ROBIN", "ROUND_ROBIN", True, 2, 2)]:
+        C.append(mesh(rows, cols, pd, cap, iat, pin, pout, spout, blocking, wc, bdelay))
     # the scenarios of the repository's own tests (tests/test_machine.py), shorter horizon: their histories are free,
     # realistic inputs; their assertions are irrelevant here
     for iat, pd, wc, c1, c2, d1, d2 in [(4, 4, 1, 4, 1, 0, 0), (1, 4, 1, 4, 1, 0, 0), (8, 12, 1, 4, 1, 0, 0), (4, 4, 5, 4, 1, 0, 0),
